@@ -507,6 +507,56 @@ func warm() *mc.Scenario {
 	}}
 }
 
+// crossScenario: two executors; a callee running on lane k of A hands ITS context on to B.AsyncCall with a
+// hash that B also maps to lane k, while another caller uses B's lane k directly.  B's lane must still
+// run its calls one at a time, on its own goroutine, and refuse after B.Stop.
+func crossScenario() *mc.Scenario {
+	return &mc.Scenario{Name: "mline/nested-call-into-a-second-executor-with-the-callee-context", PB: [2]int{1, 2}, FB: [2]int{4, 6}, Main: func(w *mc.World) {
+		a := mline.NewMultiLine(pipe.WithSlotSize(2), pipe.WithQSize(8))
+		b := mline.NewMultiLine(pipe.WithSlotSize(2), pipe.WithQSize(8))
+		a.Run()
+		b.Run()
+		inB := 0
+		threads := map[int]bool{}
+		onB := func(tag string) func(c context.Context, lane int, req interface{}) (interface{}, error) {
+			return func(c context.Context, lane int, req interface{}) (interface{}, error) {
+				w.Touch()
+				inB++
+				threads[w.S.Cur().ID] = true
+				if inB > 1 {
+					w.Failf("two callees run inside lane %d of the second executor at once (%s entered while another is inside)", lane, tag)
+				}
+				vsync.Yield()
+				w.Touch()
+				inB--
+				return tag, nil
+			}
+		}
+		w.Go("direct", func() {
+			if _, err := b.AsyncCall(vctx.New(), mline.NewCallCtx(1, onB("direct"), nil)); err != nil {
+				w.Failf("direct call refused: %v", err)
+			}
+		})
+		w.Go("nested", func() {
+			res, err := a.AsyncCall(vctx.New(), mline.NewCallCtx(1, func(c context.Context, lane int, req interface{}) (interface{}, error) {
+				return b.AsyncCall(c, mline.NewCallCtx(1, onB("nested"), nil)) // the callee's own context travels on
+			}, nil))
+			if err != nil || res != "nested" {
+				w.Failf("nested call returned %v, %v", res, err)
+			}
+		})
+		w.Join()
+		w.Touch()
+		if len(threads) != 1 {
+			w.Failf("calls given to lane 1 of the second executor ran on %d different goroutines (a lane is one goroutine)", len(threads))
+		}
+		a.Stop()
+		b.Stop()
+		_ = a.WaitStop(vctx.New())
+		_ = b.WaitStop(vctx.New())
+	}}
+}
+
 // calleeShapes: the reflective AsyncCall accepts any func(ctx, A) (R, E) whose E implements error; for
 // every shape - interface and concrete (pointer, nil-able) error types, value and pointer arguments and
 // results - a successful call must hand the caller its value and a nil error, a failing one its error.
@@ -608,6 +658,6 @@ func main() {
 		seq.RunFamily(r, seq.Family{Name: "lane-index", Run: routing})
 		seq.RunFamily(r, seq.Family{Name: "executor-options", Run: optionsFamily})
 	}
-	scs := append(scenarios(), minIntScenario(), reuseScenario(2), reuseScenario(5), reuseScenario(-4), calleeShapesScenario())
+	scs := append(scenarios(), minIntScenario(), reuseScenario(2), reuseScenario(5), reuseScenario(-4), calleeShapesScenario(), crossScenario())
 	mc.Main(r, scs)
 }
